@@ -68,7 +68,12 @@ class Repartition(Expr):
         ):
             new_partitions = self.operand("new_partitions")
             if isinstance(new_partitions, Callable):
-                return new_partitions(self.frame.npartitions)
+                new_partitions = new_partitions(self.frame.npartitions)
+            if type(self) is Repartition and new_partitions > self.frame.npartitions:
+                # Increasing the partition count of a frame with known divisions
+                # interpolates and de-duplicates the divisions, which can yield
+                # fewer partitions than requested; report what will be built
+                return len(self._lower()._divisions()) - 1
             return new_partitions
         return super().npartitions
 
